@@ -61,7 +61,7 @@ def showMsg (strerr : Int → String) : Msg → String
 /-- parse the trailing ` @ rc hex` records appended by the harness -/
 def parseConvs : List String → List Conv
   | "@" :: rc :: out :: rest =>
-    { rc := rc.toInt?.getD 0, out := if out == "-" then none else some (unhex out) } :: parseConvs rest
+    { rc := rc.toInt?.getD 0, out := if out == "-" then none else if out == "=" then some [] else some (unhex out) } :: parseConvs rest
   | _ => []
 
 def noConv : Conv := { rc := 99999, out := none }
@@ -85,6 +85,13 @@ def runHistory (be : Backend) (b : Build) (script : String) (convGroups : List (
     let arg := (op.drop 1).toString
     if c == 'x' then
       outs := outs.push "x"
+      continue
+    if c == 'v' then
+      -- the record the object holds now (`eav->result`), as the caller can read it between calls
+      let cur := if two then st2 else st
+      outs := outs.push (match cur.obj with
+        | some e => (match e.result with | some r => "v" ++ showResult b r | none => "v-")
+        | none => showFault .uninit)
       continue
     let mop : Option Op :=
       if c == 'i' then some .init
@@ -213,7 +220,7 @@ def handle (be : Backend) (b : Build) (toks : List String) : String :=
        let args : List (Option (List Nat)) := files.map fun f => if f == "~" then none else some (unhex f)
        let table : List (List Nat × Conv) := convs.filterMap fun g =>
          match g with
-         | [a, rc, out] => some (unhex a, { rc := rc.toInt?.getD 0, out := if out == "-" then none else some (unhex out) })
+         | [a, rc, out] => some (unhex a, { rc := rc.toInt?.getD 0, out := if out == "-" then none else if out == "=" then some [] else some (unhex out) })
          | _ => none
        let convOf : List Nat → Conv := fun a => match table.find? (fun p => p.1 == a) with | some p => p.2 | none => noConv
        let bytes : String → List Nat := fun s => s.toUTF8.toList.map (·.toNat)
